@@ -37,6 +37,7 @@ SRC_KINDS = ['gen', 'agen', 'rx4', 'rx3bp']
 def any_src(frag, ends=('flag', 'sep', 'error')):
     lib = st.fixed_dictionaries({'kind': st.sampled_from(SRC_KINDS), 'els': st.lists(gen.nonempty_lens(frag, 2), max_size=5),
                                  'end': st.sampled_from(['flag', 'sep']), 'awaits': st.integers(0, 2),
+                                 'pace': st.sampled_from([0, 0, 0, 4, 25]),
                                  'err_at': st.one_of(st.none(), st.none(), st.integers(0, 5))})
     return st.one_of(gen.manual_src(frag, ends=ends, max_frags=3, max_els=4), lib)
 
